@@ -73,3 +73,16 @@ Theorem C04_error_clears : forall lower now c u host ck a e,
   ao_session (authenticate lower now c u host ck a) = None.
 Proof. exact authenticate_error_clears. Qed.
 Print Assumptions C04_error_clears.
+
+(* The monitor that judges the implementation's histories demands no more than these theorems:
+   it accepts the model's own observation at every step of every history (any issued cookie, any
+   host, any answers). *)
+From V Require Import CorrProxy Corr_C01 Corr_C01_proofs Corr_C04 Corr_C04_proofs.
+Theorem C04_monitor_accepts_model : forall lower c pol_of evs host x k i a,
+  let w := run lower c pol_of evs in
+  nth_error (w_issued w) k = Some i ->
+  c04_step lower c (pol_of host) (i_login i)
+    (with_issued (model_obs lower (w_now w) c (pol_of host) (mk_request w host false false x EProxy (CkIssued k)) a)
+                 (Some (i_at i))) = true.
+Proof. exact c04_monitor_accepts_model. Qed.
+Print Assumptions C04_monitor_accepts_model.
